@@ -349,6 +349,47 @@ def to_sseq(s, shape=None, measure=None):
     return r
 
 
+def comp_psum_fn(s, c):
+    """The prefix-sum function of component `c` of a sequence `s` of int tuples (c=None: of the int elements
+    themselves): F(k) = sum of s[q][c] for q < k.  One uninterpreted function per (sequence object, component),
+    with the definitional axioms F(0) = 0 (asserted here) and F(q+1) = F(q) + s[q][c] instantiated groundly by
+    `comp_psum_unfold`.  Int sequences with a prefix-sum model field use that field."""
+    if isinstance(s, LRef):
+        s = s.seq
+    if not isinstance(s, SSeq):
+        raise Unsupported("component prefix sum of a sequence of concrete length")
+    d = s.__dict__.setdefault("_cps", {})
+    if c not in d:
+        d[c] = z3.Function(cur().fresh_name(f"{s.name or 'seq'}$csum{'' if c is None else c}"), z3.IntSort(), z3.IntSort())
+    return d[c]
+
+
+def comp_psum(s, c, k):
+    """sum of s[q][c] for q < k (0 <= k <= len(s)); see comp_psum_fn."""
+    if isinstance(s, LRef):
+        s = s.seq
+    if c is None and isinstance(s, SSeq) and s.psum is not None:
+        return s.psum(k)
+    f = comp_psum_fn(s, c)
+    cur().assume(f(z3.IntVal(0)) == 0)
+    return mk_int(f(zint(k)))
+
+
+def comp_psum_unfold(s, c, q):
+    """Ground instance at q of the definition of the component prefix sum: 0 <= q < len => F(q+1) = F(q) + s[q][c]."""
+    if isinstance(s, LRef):
+        s = s.seq
+    if c is None and isinstance(s, SSeq) and s.psum is not None:
+        s.get(q)  # the model field's getter instantiates its own axiom
+        return
+    f = comp_psum_fn(s, c)
+    st = cur()
+    zq = zint(q)
+    e = s.get(q)
+    x = e if c is None else e[c]
+    st.assume(z3.Implies(z3.And(zq >= 0, zq < zint(s.length)), f(zq + 1) == f(zq) + zint(x)))
+
+
 def seq_concat(a, b):
     if isinstance(a, (tuple, list)) and isinstance(b, (tuple, list)):
         return tuple(a) + tuple(b)
